@@ -123,11 +123,25 @@ def abstract_query(q, parts):
     return out
 
 
+WRAPS = [(b"", b""), (b"", b""), (b" ", b"\t "), (b"\xa0", b"\xa0"), (b"\x0b", b""), (b"", b"\x0c"), (b"\x1c", b"\x1f"),
+         (b"\x85", b""), (b"", b"\xa0"), (b"caf\xe9 ", b""), (b"\t", b"")]
+
+
 def observe(form, t, rng, hdrs=None, method="GET", ver=11, vary=False):
     target, parts = concretize(form, t, rng if vary else None)
     hdrs = hdrs or []
-    names = {1: "X-A", 2: "X-B", 3: "Accept", 4: "X-Custom-Long-Name"}
-    hl = b"".join(("%s: v%d\r\n" % (names[n] if rng.random() < 0.5 else names[n].upper(), v)).encode() for n, v in hdrs)
+    names = {1: "X-A", 2: "X-B", 3: "Accept", 4: "X-Custom-Long-Name", 5: "Script-Name"}
+    hl = b""
+    expect_str = {}                     # environ value string -> value id
+    for n, v in hdrs:
+        if n == 5:
+            raw = b"/"                   # a hyphen-spelled look-alike of the SCRIPT_NAME forwarder header
+        else:
+            pre, suf = rng.choice(WRAPS) if vary else (b"", b"")
+            raw = pre + b"v%d" % v + suf
+        expect_str[raw.strip(b" \t").decode("latin-1")] = v
+        nm = names[n] if rng.random() < 0.5 else names[n].upper()
+        hl += nm.encode() + b": " + raw + b"\r\n"
     ctype = rng.random() < 0.3
     if ctype:
         hl += b"Content-Type: text/x\r\nContent-Length: 0\r\n"
@@ -152,16 +166,14 @@ def observe(form, t, rng, hdrs=None, method="GET", ver=11, vary=False):
     for n, nm in names.items():
         key = "HTTP_" + nm.upper().replace("-", "_")
         if key in env:
-            vals = []
-            for tok in env[key].split(","):
-                vals.append(int(tok[1:]) if tok[:1] == "v" and tok[1:].isdigit() else -1)
+            vals = [expect_str.get(tok, -1) for tok in env[key].split(",")]
             obs["vars"].append([n, vals])
     if ctype:
         obs["ct_ok"] = env.get("CONTENT_TYPE") == "text/x" and env.get("CONTENT_LENGTH") == "0" and \
             "HTTP_CONTENT_TYPE" not in env and "HTTP_CONTENT_LENGTH" not in env
     tr = {"form": form, "t": list(t), "hdrs": [list(h) for h in hdrs], "obs": obs}
     return tr, {"request": req.decode("latin-1"), "PATH_INFO": env.get("PATH_INFO"), "QUERY_STRING": env.get("QUERY_STRING"),
-                "RAW_URI": env.get("RAW_URI")}
+                "RAW_URI": env.get("RAW_URI"), "vars": {k: env[k] for k in env if k.startswith("HTTP_X")}}
 
 
 def c15(ctx):
@@ -196,6 +208,8 @@ def c15(ctx):
         form = rng.choice(["origin", "origin", "dslash", "abs"])
         t = [rng.choice(SYMS) for _ in range(rng.randint(0, 10))]
         hdrs = [[rng.randint(1, 4), i + 1] for i in range(rng.randint(0, 6))]
+        if rng.random() < 0.1 and form != "abs":
+            hdrs.append([5, 500])
         add(form, t, hdrs=hdrs, method=rng.choice(["GET", "POST", "DELETE", "OPTIONS", "M-SEARCH", "PATCH"]),
             ver=rng.choice([10, 11]), vary=True)
     add("star", [], method="OPTIONS")
@@ -216,6 +230,10 @@ def c15(ctx):
                 break
         else:
             culprit = ",".join(cause) or "-"
+        if v == "HeaderVariableWrong":
+            culprit = "value-bytes"
+        elif v == "ScriptNameNotEmpty":
+            culprit = "hyphen-script-name" if any(h[0] == 5 for h in t["hdrs"]) else "-"
         ctx.violation("C15/%s/%s" % (v, culprit), "%s: %s observed=%s" % (v, json.dumps(m)[:300], t["obs"]), {"trace": t, "meta": m})
     for t, m in list(zip(traces, metas))[:2] + list(zip(traces, metas))[-2:]:
         ctx.sample({"request": m["request"][:120], "PATH_INFO": m["PATH_INFO"], "QUERY_STRING": m["QUERY_STRING"], "obs": t["obs"]})
